@@ -130,6 +130,17 @@ def r062_gamma_bound(ctx):
              "n": A.entry(r, "self.total_samples"), "h": h}
     specs = [A.spec(s, roles) for s in ("-U.T.dot(ud * h + u0) / n", "-U.T.dot(ud.T * h + u0) / n")]
     A.formula("R06.2", fq, None, r.ret, specs, "gamma", construct="gamma formula")
+    flattened_prediction(ctx, A, r, h, "R06.2", "UtilityParity.gamma")
+    re_ = A.run(M_ER + ":ErrorRate.gamma", cls_ctx=M_ER + ":ErrorRate")
+    ce = [e for e in re_.events if e.kind == "call" and e.data["fterm"] is re_.params["predictor"]]
+    if ce:
+        flattened_prediction(ctx, A, re_, ce[0].data["result"], "R06.2", "ErrorRate.gamma")
+    rt = A.run(M_MOMENT + ":Moment.total_samples", cls_ctx=M_MOMENT + ":Moment")
+    okn = rt.ret is not None and any(rt.ret is A.entry(rt, s_, {"len": glob("builtins.len")}) for s_ in (
+        "self.X.shape[0]", "len(self.X)", "self.tags.shape[0]", "len(self.tags)", "len(self._y)", "self._y.shape[0]"))
+    ctx.ob("R06.2", rt.func, None, okn, "n = total_samples is the number of rows of the loaded data" if okn else
+           f"total_samples is {show(rt.ret, maxdepth=3)[:60] if rt.ret is not None else '?'}, not the number of rows",
+           construct="total_samples")
     # utility_diff by definition (in load_data)
     rl = A.run(cls + ".load_data", cls_ctx=cls)
     for e in [x for x in stores_attr(rl, "utility_diff")]:
@@ -156,6 +167,55 @@ def r062_gamma_bound(ctx):
     spec = A.entry(rb, "pd.Series(self.eps, index=self.index)", {"pd": glob("pandas")})
     A.formula("R06.2", rb.func, None, rb.ret, spec, "bound() = eps on every constraint", construct="bound formula")
     utility_parity_ctor_table(ctx, "R06.2")
+
+
+FLATTEN_FUNCS = ("numpy.squeeze", "numpy.ravel")
+FLATTEN_METHODS = ("squeeze", "ravel", "flatten")
+
+
+def flattened_prediction(ctx, A, r, h: T, rule: str, what: str):
+    """An ndarray prediction of shape (n, 1) must be flattened before it meets the (n,) label / utility vectors (otherwise
+    broadcasting yields an (n, n) array): every use of the predictor's result h in the returned value goes through
+    squeeze / ravel / flatten / reshape(-1), unconditionally or under isinstance(h, np.ndarray)."""
+    nd = mk("call", glob("builtins.isinstance"), (h, glob("numpy.ndarray")), ())
+
+    def is_flat(x):
+        if x.op == "call" and x.args[0].op == "global" and x.args[0].args[0] in FLATTEN_FUNCS and x.args[1] and x.args[1][0] is h:
+            return True
+        if x.op == "call" and x.args[0].op == "attr" and x.args[0].args[0] is h and (
+                x.args[0].args[1] in FLATTEN_METHODS or (x.args[0].args[1] == "reshape" and x.args[1] and x.args[1][0] is const(-1))):
+            return True
+        return False
+
+    def is_guarded(x):
+        if x.op != "ite":
+            return False
+        if x.args[0] is nd:
+            return is_flat(x.args[1]) and x.args[2] is h
+        return x.args[0].op == "not" and x.args[0].args[0] is nd and is_flat(x.args[2]) and x.args[1] is h
+
+    bare = []
+    seen = set()
+    stack = [r.ret] if r.ret is not None else []
+    while stack:
+        x = stack.pop()
+        if not isinstance(x, T) or x.uid in seen:
+            if isinstance(x, tuple):
+                stack.extend(x)
+            continue
+        seen.add(x.uid)
+        if is_flat(x) or is_guarded(x):
+            continue
+        if x is h:
+            bare.append(x)
+            continue
+        if x is nd:
+            continue
+        stack.extend(a for a in x.args if isinstance(a, (T, tuple)))
+    ok = r.ret is not None and not bare
+    ctx.ob(rule, r.func, None, ok, f"{what}: an ndarray prediction is flattened (squeeze) before it is combined with the per-row "
+           "vectors" if ok else f"{what}: the predictor's output is used without flattening: an (n, 1) ndarray prediction broadcasts "
+           "against the (n,) vectors into an (n, n) array", construct=f"{what} flattens predictions")
 
 
 def utility_parity_ctor_table(ctx, rule):
@@ -342,6 +402,31 @@ def _null_guard(pc, x: T) -> bool:
     return False
 
 
+def _eval_nulls(c: T, env: dict):
+    """Truth value of a path literal when the values in env are known to be non-null (True) / null (False); None = unknown."""
+    if c.op == "not":
+        v = _eval_nulls(c.args[0], env)
+        return None if v is None else not v
+    if c.op in ("and", "or"):
+        vs = [_eval_nulls(x, env) for x in c.args[0]]
+        if c.op == "and":
+            return False if any(v is False for v in vs) else (True if all(v is True for v in vs) else None)
+        return True if any(v is True for v in vs) else (False if all(v is False for v in vs) else None)
+    if c.op == "call" and c.args[0].op == "global" and c.args[1] and c.args[1][0] in env:
+        n = c.args[0].args[0]
+        if n in ("pandas.notnull", "pandas.notna"):
+            return env[c.args[1][0]]
+        if n in ("pandas.isnull", "pandas.isna", "numpy.isnan", "math.isnan"):
+            return not env[c.args[1][0]]
+    if c.op == "cmp" and c.args[0] in ("is", "is not") and NONE in (c.args[1], c.args[2]):
+        x = c.args[1] if c.args[2] is NONE else c.args[2]
+        if x in env:
+            return (not env[x]) if c.args[0] == "is" else env[x]
+    if c.op == "cmp" and c.args[0] == "==" and c.args[1] is c.args[2] and c.args[1] in env:
+        return env[c.args[1]]
+    return None
+
+
 def r064_null(ctx):
     ctx.rule("R06.4", "a null event (a row outside the conditioned label class, produced by Series.where) stays null "
                       "through the merge with the control column: no stringification of a nullable event on a path "
@@ -395,6 +480,14 @@ def r064_null(ctx):
                        construct="stringification of nullable event")
             else:
                 ctx.ob("R06.4", fq, e.node, True, "return path does not stringify the event", construct="return path " + str(n_ret))
+                # completeness: with event and control both non-null this path must be infeasible, otherwise the control
+                # stratum of an ordinary row is dropped from its event label
+                env = {p_: True for p_ in rc.params.values()}
+                vals = [_eval_nulls(c, env) for c in e.pc]
+                feasible = all(v is not False for v in vals)
+                ctx.ob("R06.4", fq, e.node, not feasible, "the bare event is returned only when the event or the control value is "
+                       "null" if not feasible else "a row whose event and control value are both present can leave the combiner "
+                       "without its control stratum: the (event, control) strata are merged", construct="control stratum kept " + str(n_ret))
         ctx.floor("R06.4", "return paths of the combiner", n_ret, 2)
     # load_data must group on the event column without filling nulls
     rl = A.run(M_UP + ":UtilityParity.load_data", cls_ctx=M_UP + ":UtilityParity")
